@@ -88,14 +88,14 @@ def exc_names(e: BaseException) -> list[str]:
 
 def check_native(c: Contract, inputs: dict[str, Any], call: Callable[..., Any] | None = None) -> NativeOutcome:
 	"""Evaluate the contract on one concrete input against the real function."""
-	ns = native_ns(dict(inputs))
+	ns = native_ns({**c.consts, **dict(inputs)})
 	try:
 		for r in c.requires:
 			if not eval_clause(r, ns):
 				return NativeOutcome('pre-false', f'requires not satisfied: {r}')
 	except Exception as e:
 		return NativeOutcome('pre-false', f'requires not evaluable: {type(e).__name__}: {e}')
-	old_ns = native_ns(copy.deepcopy(dict(inputs)))
+	old_ns = native_ns({**c.consts, **copy.deepcopy(dict(inputs))})
 	fn = call or import_real(c.file, c.qualname)
 	src = source.load(c.file).funcs[c.qualname]
 	argnames = [a.arg for a in src.node.args.posonlyargs + src.node.args.args]
